@@ -393,6 +393,22 @@ func driveC07(c *driverCtx) error {
 		{"unknowncodec-space", buildContainer(schemaJSON, " null", true, sync, [][2]any{{1, raw}})},
 		{"unknowncodec-zstd", buildContainer(schemaJSON, "zstandard", true, sync, [][2]any{{1, raw}})},
 	}
+	// the same with the header's metadata map spread over several map blocks (one entry per block, and an entry no
+	// reader knows): what a header says does not depend on how its map is cut into blocks
+	for _, layout := range []int{1, 4} {
+		metaLayout = layout
+		sfx := fmt.Sprintf("-split%d", layout)
+		variants = append(variants, []struct {
+			name string
+			file []byte
+		}{
+			{"intact" + sfx, buildContainer(schemaJSON, "null", true, sync, [][2]any{{1, raw}})},
+			{"nocodec" + sfx, buildContainer(schemaJSON, "null", false, sync, [][2]any{{1, raw}})},
+			{"unknowncodec" + sfx, buildContainer(schemaJSON, "bzip2", true, sync, [][2]any{{1, raw}})},
+			{"unknowncodec-zstd" + sfx, buildContainer(schemaJSON, "zstandard", true, sync, [][2]any{{1, raw}})},
+		}...)
+		metaLayout = 0
+	}
 	for _, v := range variants {
 		c.rec.NewCase()
 		r := readBack(typ, v.file, "bytes", false, -1, nil)
